@@ -604,6 +604,30 @@ def gen_case(rng, kinds, Lmax=6, dmax=1024):
         case['pairs'] = [[idx[2 * j], idx[2 * j + 1]] for j in range(npairs)]
         case['lonely'] = idx[2 * npairs:]
         case.update(up=up, down=down, lonely_state=lon, complex=False)
+    elif kind == 'covering' and rng.random() < 0.55:
+        # several entangled local states crossing the same bond, conserved U(1) charge, local bond dimensions
+        # 2 and 4 (the charge-sorted pipe of the combined virtual leg is then a non-trivial, in general not
+        # self-inverse permutation of the product index)
+        A, B = ['SpinHalf', 'Sz'], ['Spin32', 'Sz']
+        tpl = rng.choice(['2x4', '4x2', '4x4', '4x4n', '2222', '2x2x4'])
+        if tpl == '2x4':
+            maps, kinds = [[0, 2], [1, 3]], [A, B, A, B]
+        elif tpl == '4x2':
+            maps, kinds = [[0, 2], [1, 3]], [B, A, B, A]
+        elif tpl == '4x4':
+            maps, kinds = [[0, 2], [1, 3]], [B, B, B, B]
+        elif tpl == '4x4n':
+            maps, kinds = [[0, 3], [1, 2]], [B, B, B, B]
+        elif tpl == '2222':
+            maps, kinds = [[0, 4], [1, 5], [2, 6], [3, 7]], [A] * 8
+        else:
+            maps, kinds = [[0, 3], [1, 4], [2, 5]], [A, A, B, A, A, B]
+        if rng.random() < 0.3:
+            rng.shuffle(maps)
+        case['sites'] = {'kinds': kinds}
+        case['index_map'] = maps
+        case['local_canon'] = True
+        case['complex'] = rng.random() < 0.3
     elif kind == 'covering':
         # bosonic sites only: the tensor product of the local states is then unambiguous
         bos = [k for k in SITE_KINDS if k[0] in ('SpinHalf', 'Spin1', 'Boson2', 'Boson1')]
